@@ -354,6 +354,57 @@ func attack(kp hx.KeyPair, c *chain, cred, other *gabi.Credential, last *gabi.Pr
 		}
 	case "strip":
 		p.NonRevocationProof = nil
+	case "foreign-witness-sk", "foreign-witness-attr":
+		// B: a value with a valid witness for the newest accumulator. The attacker's credential has a revocation attribute
+		// for which it holds NO valid witness (it stands for a revoked one) and carries B's value in a hidden attribute.
+		newest := len(c.accs) - 1
+		wB, err := revocation.RandomWitness(kp.SK, c.accs[newest])
+		if err != nil {
+			hx.Fatal("RandomWitness: %v", err)
+		}
+		sa := *c.saccs[newest]
+		wB.SignedAccumulator = &sa
+		secret := randBits(rng, 250)
+		attrs := []*big.Int{randBits(rng, 200), randBits(rng, 200), randBits(rng, 200), freshPrime()}
+		at := 0
+		if kind == "foreign-witness-sk" {
+			secret = new(big.Int).Set(wB.E)
+		} else {
+			at = 1
+			attrs[0] = new(big.Int).Set(wB.E)
+		}
+		acred, err := hx.Issue(kp, big.NewInt(1), secret, nil, attrs, nil, nil)
+		if err != nil {
+			hx.Fatal("issuance: %v", err)
+		}
+		b, err := acred.CreateDisclosureProofBuilder([]int{2}, nil, false)
+		if err != nil {
+			hx.Fatal("builder: %v", err)
+		}
+		r := revocation.NewProofRandomizer()
+		rnd, _ := gabi.NewProofRandomizers()
+		if at == 0 {
+			rnd["secretkey"] = r
+		} else {
+			b.VerifSetAttrRandomizer(at, r)
+		}
+		// the response of the real revocation attribute must not look like one: a randomiser of full length with its top bit set
+		pad := randBits(rng, kp.PK.Params.LmCommit)
+		pad.SetBit(pad, int(kp.PK.Params.LmCommit)-1, 1)
+		b.VerifSetAttrRandomizer(revIdx, pad)
+		contrib, err := b.Commit(rnd)
+		if err != nil {
+			hx.Fatal("commit: %v", err)
+		}
+		nrc, ncommit, err := revocation.NewProofCommit(kp.PK, wB, r)
+		if err != nil {
+			hx.Fatal("NewProofCommit: %v", err)
+		}
+		l := append([]*big.Int{ctx}, contrib...)
+		l = append(append(l, nrc...), nonce)
+		ch := verifx.HashCommit(l, false)
+		p = b.CreateProof(ch).(*gabi.ProofD)
+		p.NonRevocationProof = ncommit.BuildProof(ch)
 	case "Cr-zero":
 		p.NonRevocationProof.Cr = zeroRep(n, rng)
 	case "Cu-zero":
@@ -403,6 +454,11 @@ func attack(kp hx.KeyPair, c *chain, cred, other *gabi.Credential, last *gabi.Pr
 		d := hx.M{"attack": kind}
 		for k, v := range det {
 			d[k] = v
+		}
+		if kind == "foreign-witness-attr" {
+			d["cause"] = "witness-attribute-not-identified"
+			res.Violation("foreign-witness-accepted", "a disclosure proof was accepted whose non-revocation part proves the witness of ANOTHER value, carried by an ordinary hidden attribute of the credential, while the credential's revocation attribute has no valid witness", d)
+			return
 		}
 		res.Violation("manipulated-nonrev-proof-accepted", "a disclosure proof with a manipulated non-revocation part was accepted ("+kind+")", d)
 	}
